@@ -182,7 +182,18 @@ theorem held_lt_length : ∀ (ws : List WSt) (w : Nat) (a : WSt), ws[w]? = some 
 
 /-- a stopping result cancels unless it is the generator's plain EOF; a cancelling result stops -/
 theorem cont_false_of_cancels {c : Cfg} {x : Nat} (h : c.cancels x = true) : c.cont x = false := by
-  simp [Cfg.cancels] at h; exact h.1
+  simp [Cfg.cancels, Cfg.stops] at h; exact h.2.1
+
+/-- for a construct that cancels its group, "stopping" and "cancelling" finishes coincide -/
+theorem isStopFin_eq_isCancelFin {c : Cfg} (hg : c.groupCancel = true) : isStopFin c = isCancelFin c := by
+  funext e; cases e <;> simp [isStopFin, isCancelFin, Cfg.cancels, hg]
+
+theorem afterStop_eq_afterCount {c : Cfg} (hg : c.groupCancel = true) : ∀ l, afterStop c l = afterCount c l
+  | [] => rfl
+  | .start x w :: l => by
+    simp only [afterStop, afterCount, afterStop_eq_afterCount hg l, isStopFin_eq_isCancelFin hg]
+  | .fin x w :: l => by simp only [afterStop, afterCount, afterStop_eq_afterCount hg l]
+  | .dropped x :: l => by simp only [afterStop, afterCount, afterStop_eq_afterCount hg l]
 
 /-! ### the invariant -/
 
@@ -519,15 +530,17 @@ theorem Inv.allowed {c : Cfg} {input : List Nat} {s : St} (h : Inv c input s) (h
     cases hcan : s.cancelled with
     | false => rw [h.after0 hcan]; omega
     | true => have := h.bound hcan; omega
-  simp only [FaultPipe.allowed, Verdict.ok, judge, Bool.and_eq_true, Bool.or_eq_true, Bool.not_eq_true',
-    decide_eq_true_eq]
-  refine ⟨⟨⟨⟨countLe_of _ _ h.starts_count_le, ?_⟩, h.wstops⟩, Or.inr hbound⟩, ?_⟩
+  have hb : (!(measured && c.groupCancel) || decide (afterStop c s.log ≤ c.n)) = true := by
+    cases hg : c.groupCancel with
+    | false => simp
+    | true => rw [afterStop_eq_afterCount hg]; simp [hbound]
+  simp only [FaultPipe.allowed, Verdict.ok, judge, Bool.and_eq_true]
+  refine ⟨⟨⟨⟨countLe_of _ _ h.starts_count_le, ?_⟩, h.wstops⟩, hb⟩, ?_⟩
   · exact List.isPerm_iff.mpr (h.terminal_starts_fins ht)
   · cases hall : (fins s.log).all c.cont with
-    | false => exact Or.inl rfl
+    | false => rfl
     | true =>
-      right
       have hc : ∀ x ∈ fins s.log, c.cont x = true := by simpa using hall
-      exact List.isPerm_iff.mpr ((h.terminal_starts_fins ht).trans (h.terminal_complete ht hc))
+      simpa using List.isPerm_iff.mpr ((h.terminal_starts_fins ht).trans (h.terminal_complete ht hc))
 
 end FunModel.FaultPipe
